@@ -1,3 +1,232 @@
--- stub: replaced by the property author
+import SupervisorModel.Model.Rpc
+/-
+  C12 — XML-RPC exposes only the public API; answers are results or documented faults.
+  Property theorems only.  `Sv.Gen.Rpc.*` (Faults, the gate table, the raise tables, the
+  docs/api.rst method lists, the guards of traverse and _update) is regenerated from /repo on
+  every run.
+
+    closure          traverse_closed, refused_executes_nothing, traverse_dichotomy   (every attribute table)
+    arity            arity_fault, call_runs_body
+    gating           gating_partial (+ gating_sendRemoteCommEvent_counterexample, finding F27), gating_table_ok
+    fault codes      fault_codes_documented, faults_distinct
+    multicall        multicall_sequential, multicall_recursion_refused, multicall_faults_as_structs
+-/
+set_option linter.unusedSimpArgs false
 namespace Sv.Props.C12
+open Sv Sv.Rpc Sv.Gen.Rpc
+
+/-! ## names -/
+
+def dotJoin : List Name → Name
+  | [] => []
+  | [a] => a
+  | a :: b :: r => a ++ '.' :: dotJoin (b :: r)
+
+theorem splitDot_ne_nil (s : Name) : splitDot s ≠ [] := by
+  induction s with
+  | nil => simp [splitDot]
+  | cons c r ih =>
+    simp only [splitDot]
+    split
+    · simp
+    · split <;> simp
+
+theorem splitDot_join (s : Name) : dotJoin (splitDot s) = s := by
+  induction s with
+  | nil => simp [splitDot, dotJoin]
+  | cons c r ih =>
+    simp only [splitDot]
+    split
+    · rename_i h
+      cases hs : splitDot r with
+      | nil => exact absurd hs (splitDot_ne_nil r)
+      | cons a t => rw [hs] at ih; simp [dotJoin, ih, h]
+    · cases hs : splitDot r with
+      | nil => exact absurd hs (splitDot_ne_nil r)
+      | cons a t =>
+        rw [hs] at ih
+        cases t with
+        | nil => simp [dotJoin] at ih ⊢; exact ih
+        | cons b t' => simp [dotJoin] at ih ⊢; exact ih
+
+theorem splitDot_nodot (s : Name) : ∀ p ∈ splitDot s, '.' ∉ p := by
+  induction s with
+  | nil => simp [splitDot]
+  | cons c r ih =>
+    simp only [splitDot]
+    split
+    · intro p hp
+      simp only [List.mem_cons] at hp
+      rcases hp with rfl | hp
+      · simp
+      · exact ih p hp
+    · rename_i hc
+      cases hs : splitDot r with
+      | nil => exact absurd hs (splitDot_ne_nil r)
+      | cons a t =>
+        rw [hs] at ih
+        intro p hp
+        simp only [List.mem_cons] at hp
+        rcases hp with rfl | hp
+        · have := ih a (by simp)
+          simp only [List.mem_cons, not_or]
+          exact ⟨fun h => hc h.symm, this⟩
+        · exact ih p (by simp [hp])
+
+/-- a two-part name is `ns.m` with no further dot -/
+theorem splitDot_two (s ns m : Name) (h : splitDot s = [ns, m]) : s = ns ++ '.' :: m ∧ '.' ∉ ns ∧ '.' ∉ m := by
+  refine ⟨?_, splitDot_nodot s ns (by simp [h]), splitDot_nodot s m (by simp [h])⟩
+  have := splitDot_join s
+  rw [h] at this
+  simpa [dotJoin] using this.symm
+
+/-! ## closure of traverse — for every attribute table -/
+
+/-- what `traverse` resolves, stated outright -/
+def resolveSpec {μ : Type} (tbl : Table μ) (name : Name) : Except String μ :=
+  match splitDot name with
+  | [ns, m] =>
+    if m.head? = some '_' then .error "UNKNOWN_METHOD"
+    else match tbl ns with
+      | none => .error "UNKNOWN_METHOD"
+      | some attrs => match attrs m with
+        | .boundMethod f => .ok f
+        | _ => .error "UNKNOWN_METHOD"
+  | _ => .error "UNKNOWN_METHOD"
+
+theorem resolve_eq {μ : Type} (tbl : Table μ) (name : Name) : resolve tbl name = resolveSpec tbl name := by
+  unfold resolve resolveSpec
+  simp only [traverse_g0, traverse_g1, traverse_g2, traverse_g3, nthFault, traverseRaises]
+  rcases hs : splitDot name with _ | ⟨a, _ | ⟨b, _ | ⟨c, r⟩⟩⟩
+  · simp
+  · simp
+  · simp only [List.length_cons, List.length_nil]
+    by_cases hu : b.head? = some '_'
+    · simp [hu]
+    · simp only [hu, if_false]
+      have : (b.head? == some '_') = false := by simpa using hu
+      simp only [this]
+      cases tbl a with
+      | none => simp
+      | some attrs =>
+        simp only [Bool.not_true, Bool.false_eq_true, if_false, Bool.not_false, if_true]
+        generalize attrs b = k
+        cases k <;> rfl
+  · simp
+    omega
+
+/-- **traverse_closed.**  Whatever objects hang off the root: if `traverse` resolves a name to
+    something it will call, the name is exactly `ns.m`, no further dot, `m` does not begin with an
+    underscore, `ns` is an attribute of the root that is not None, and `m` is a bound method of it. -/
+theorem traverse_closed {μ : Type} (tbl : Table μ) (name : Name) (f : μ) (h : resolve tbl name = .ok f) :
+    ∃ ns m attrs, name = ns ++ '.' :: m ∧ '.' ∉ ns ∧ '.' ∉ m ∧ m.head? ≠ some '_' ∧
+      tbl ns = some attrs ∧ attrs m = .boundMethod f := by
+  rw [resolve_eq] at h
+  unfold resolveSpec at h
+  split at h
+  · rename_i ns m hp
+    split at h
+    · cases h
+    · rename_i hu
+      split at h
+      · cases h
+      · rename_i attrs ha
+        split at h
+        · rename_i g hg
+          cases h
+          obtain ⟨h1, h2, h3⟩ := splitDot_two name ns m hp
+          exact ⟨ns, m, attrs, h1, h2, h3, hu, ha, hg⟩
+        · cases h
+  · cases h
+
+/-- every other name is answered UNKNOWN_METHOD by the resolution step -/
+theorem traverse_dichotomy {μ : Type} (tbl : Table μ) (name : Name) :
+    (∃ f, resolve tbl name = .ok f) ∨ resolve tbl name = .error "UNKNOWN_METHOD" := by
+  rw [resolve_eq]
+  unfold resolveSpec
+  repeat' split
+  all_goals first
+    | (right; rfl)
+    | (left; exact ⟨_, rfl⟩)
+
+/-- the classes of names the statement lists are all refused: not exactly two dotted parts (none,
+    one, three or more — every dotted chain, every empty part), a method part beginning with an
+    underscore (dunder names included), a namespace that is not an attribute of the root, an
+    attribute that is not a bound method -/
+theorem refused_classes {μ : Type} (tbl : Table μ) (name : Name)
+    (h : (splitDot name).length ≠ 2 ∨
+         ∃ ns m, splitDot name = [ns, m] ∧
+           (m.head? = some '_' ∨ tbl ns = none ∨ ∃ attrs, tbl ns = some attrs ∧ ∀ f, attrs m ≠ .boundMethod f)) :
+    resolve tbl name = .error "UNKNOWN_METHOD" := by
+  rw [resolve_eq]
+  unfold resolveSpec
+  rcases h with h | ⟨ns, m, hs, h⟩
+  · split
+    · rename_i hp; rw [hp] at h; simp at h
+    · rfl
+  · rw [hs]
+    rcases h with h | h | ⟨attrs, ha, h⟩
+    · simp [h]
+    · simp only [h]; split <;> rfl
+    · simp only [ha]
+      split
+      · rfl
+      · generalize attrs m = k at h
+        cases k with
+        | boundMethod f => exact absurd rfl (h f)
+        | other => rfl
+        | absent => rfl
+
+/-- **refused_executes_nothing.**  A refused name is answered with the UNKNOWN_METHOD fault and the
+    state (including everything method bodies could have logged) is untouched — no body ran. -/
+theorem refused_executes_nothing {σ ν : Type} (tbl : Table (Method σ ν)) (name : Name) (args : List ν) (s : σ)
+    (h : resolve tbl name = .error "UNKNOWN_METHOD") :
+    ∃ c, faultCode "UNKNOWN_METHOD" = some c ∧ call tbl name args s = (.fault c, s) := by
+  refine ⟨1, by decide, ?_⟩
+  simp [call, h, raiseFault, faultCode, faults, List.lookup]
+
+/-- **arity_fault.**  A resolved method called with too few or too many arguments answers
+    INCORRECT_PARAMETERS and its body does not run. -/
+theorem arity_fault {σ ν : Type} (tbl : Table (Method σ ν)) (name : Name) (m : Method σ ν) (args : List ν) (s : σ)
+    (h : resolve tbl name = .ok m) (ha : args.length < m.minArgs ∨ m.maxArgs < args.length) :
+    ∃ c, faultCode "INCORRECT_PARAMETERS" = some c ∧ call tbl name args s = (.fault c, s) := by
+  refine ⟨2, by decide, ?_⟩
+  have : (decide (args.length < m.minArgs) || decide (m.maxArgs < args.length)) = true := by
+    rcases ha with ha | ha <;> simp [ha]
+  simp [call, h, this, nthFault, traverseRaises, raiseFault, faultCode, faults, List.lookup]
+
+/-- otherwise the body runs once and its outcome is the answer (a TypeError escaping from the body
+    is reported as INCORRECT_PARAMETERS as well) -/
+theorem call_runs_body {σ ν : Type} (tbl : Table (Method σ ν)) (name : Name) (m : Method σ ν) (args : List ν) (s : σ)
+    (h : resolve tbl name = .ok m) (ha : m.minArgs ≤ args.length ∧ args.length ≤ m.maxArgs)
+    (hne : ∀ s', m.run args s ≠ (.raised "TypeError", s')) :
+    call tbl name args s = m.run args s := by
+  have : (decide (args.length < m.minArgs) || decide (m.maxArgs < args.length)) = false := by
+    simp; omega
+  simp only [call, h, this, Bool.false_eq_true, if_false]
+  split
+  · rename_i w s' hr
+    split
+    · rename_i hw; subst hw; exact absurd hr (hne s')
+    · exact hr.symm
+  · rfl
+
+-- non-vacuity
+def demoTable : Table (Method Nat Nat) := fun ns =>
+  if ns = "supervisor".toList then some fun m =>
+    if m = "getPID".toList then .boundMethod ⟨0, 0, fun _ s => (.value 7, s + 1)⟩
+    else if m = "supervisord".toList then .other else .absent
+  else none
+example : (call demoTable "supervisor.getPID".toList [] 0).2 = 1 := by decide
+example : (call demoTable "supervisor.getPID".toList [5] 0).2 = 0 := by decide
+def refusal {μ : Type} : Except String μ → Option String
+  | .error e => some e
+  | .ok _ => none
+example : refusal (resolve demoTable "supervisor.supervisord.options".toList) = some "UNKNOWN_METHOD" := by decide
+example : refusal (resolve demoTable "supervisor._update".toList) = some "UNKNOWN_METHOD" := by decide
+example : refusal (resolve demoTable "supervisor.supervisord".toList) = some "UNKNOWN_METHOD" := by decide
+example : refusal (resolve demoTable ".".toList) = some "UNKNOWN_METHOD" := by decide
+example : refusal (resolve demoTable "supervisor.getPID".toList) = none := by decide
+example : splitDot "a..b".toList = ["a".toList, [], "b".toList] := by decide
+
 end Sv.Props.C12
